@@ -669,6 +669,40 @@ pub fn check_c02(cx: &Ctx, rep: &mut Report) {
             }
         }
     }
+    // (a') forward jumps inside the configured forward distance are accepted, whatever the out-of-order tolerance
+    if w.sc.name.starts_with("fwdjump") {
+        let fwd = w.sc.cfg.maximum_forward_distance as usize;
+        let senders: std::collections::BTreeSet<String> = w.pool.iter().filter(|p| p.kind == EvKind::Msg).map(|p| p.author.clone()).collect();
+        for sender in senders {
+            if &sender == member {
+                continue;
+            }
+            // generation of a message = its position among the sender's messages of that node (creation order = pool order)
+            let mine: Vec<usize> = (0..w.pool.len()).filter(|i| w.pool[*i].kind == EvKind::Msg && w.pool[*i].author == sender).collect();
+            for s in 0..g.states.len() {
+                let stored: Vec<usize> = mine.iter().enumerate().filter(|(_, i)| msg_status(w, &g.states[s], **i).0 > 0).map(|(gno, _)| gno).collect();
+                let next_gen = stored.iter().max().map(|m| m + 1).unwrap_or(0);
+                for e in &g.edges[s] {
+                    let Action::Deliver(i) = e.action else { continue };
+                    let Some(gno) = mine.iter().position(|x| *x == i) else { continue };
+                    if gno < next_gen || gno - next_gen + 1 >= fwd {
+                        continue;
+                    }
+                    rep.case(&format!("fwdjump|{}|jump{}", member_role(w, member), gno - next_gen));
+                    if e.result != "ApplicationMessage" {
+                        let mut path = g.path_to(s);
+                        path.push(e.action);
+                        rep.finding(
+                            format!("C02|forward-jump-refused|{}|jump-within-forward-distance|{}", if w.sc.members.first() == Some(member) { "receiver=group-creator" } else { "receiver=joiner" }, e.result),
+                            format!("member {member}: message generation {gno} of {sender} delivered when generations below {next_gen} were stored (jump {}, maximum_forward_distance {fwd}, out_of_order_tolerance {}) -> {}", gno - next_gen, w.sc.cfg.out_of_order_tolerance, e.result),
+                            detail(cx, &path, json!({"generation": gno, "stored": stored})),
+                        );
+                    }
+                }
+            }
+        }
+        return;
+    }
     if g.capped {
         return;
     }
